@@ -134,6 +134,27 @@ def gamma_conv(ctx):
     xy = call('pos_to_xy', P)
     back = call('xy_to_pos', np.asarray(xy[0], dtype=object), np.asarray(xy[1], dtype=object))
     ctx.ob('GAMMA-CONV', loc + 'xy_to_pos', 'plotting -> Cartesian is the inverse of Cartesian -> plotting for in-plane positions', np.shape(back) == (2, 3) and all(is_zero(sp.simplify(a - b)) for a, b in zip(np.ravel(back), np.ravel(P))), node=ctx.fn(GS, 'GammaSurface.xy_to_pos'))
+    # a fault plane whose normal is not a Cartesian axis, shift vectors of non-unit length: fcc (111) with a1 = [1 -1 0], a2 = [1 1 -2]
+    s3 = sp.sqrt(3)
+    obj_t = _gobj(ctx, [1, -1, 0], [1, 1, -2], [1 / s3, 1 / s3, 1 / s3], np.array([[A, 0, 0], [0, A, 0], [0, 0, A]], dtype=object))
+
+    def call_t(name, *a, **k):
+        try:
+            return _ret(SymEval(aliases).run_fn(ctx.fn(GS, 'GammaSurface.' + name), [obj_t] + list(a), dict(k)), name)
+        except Opaque as e:
+            raise AnalysisError('GammaSurface.%s (tilted plane): %s' % (name, e))
+    Pt = np.asarray(call_t('a12_to_pos', f1, f2), dtype=object)
+    xyt = call_t('pos_to_xy', Pt)
+    u1t, u2t = arr([1, -1, 0]) * A, arr([1, 1, -2]) * A
+    wx = [sum(Pt[i][k] * u1t[k] for k in range(3)) / (A * sp.sqrt(2)) for i in range(2)]
+    wy = [sum(Pt[i][k] * u2t[k] for k in range(3)) / (A * sp.sqrt(6)) for i in range(2)]
+    ok = isinstance(xyt, tuple) and len(xyt) == 2 and all(is_zero(sp.simplify(xyt[0][i] - wx[i])) and is_zero(sp.simplify(xyt[1][i] - wy[i])) for i in range(2))
+    ctx.ob('GAMMA-CONV', loc + 'pos_to_xy', 'tilted fault plane, non-unit shift vectors: plotting x and y are the projections of the position on the unit x direction (along a1) and on the unit in-plane direction perpendicular to it',
+           bool(ok), node=ctx.fn(GS, 'GammaSurface.pos_to_xy'), key='xy tilted')
+    if isinstance(xyt, tuple) and len(xyt) == 2:
+        backt = call_t('xy_to_pos', np.asarray(xyt[0], dtype=object), np.asarray(xyt[1], dtype=object))
+        ctx.ob('GAMMA-CONV', loc + 'xy_to_pos', 'tilted fault plane: plotting -> Cartesian inverts Cartesian -> plotting', np.shape(backt) == (2, 3) and all(is_zero(sp.simplify(a_ - b_)) for a_, b_ in zip(np.ravel(backt), np.ravel(Pt))),
+               node=ctx.fn(GS, 'GammaSurface.xy_to_pos'), key='xy inverse tilted')
     for name, args in (('pos_to_xy', [P]), ('xy_to_pos', [f1, f2])):
         ev = SymEval(aliases)
         paths = ev.run_fn(ctx.fn(GS, 'GammaSurface.' + name), [obj] + args, {'xvect': arr([0, 0, 1])})
@@ -436,6 +457,7 @@ def pn_terms(ctx):
     h2 = sp.Symbol('h2', positive=True)
     x2 = arr([x0 + i * h2 for i in range(n)])
     d2 = symarray('e', (n, 3), real=True)
+    deferred = []
     for name in ('surface_energy', 'elastic_energy', 'stress_energy', 'nonlocal_energy', 'misfit_energy', 'total_energy'):
         for cd in (False, True):
             try:
@@ -446,6 +468,9 @@ def pn_terms(ctx):
                 third = run(name, o, x2, d2)
             except WouldRaise as ex:
                 continue       # reported by the per-term obligations
+            except AnalysisError as ex:
+                deferred.append('%s: %s' % (name, ex))      # raised at the end of the rule, after the obligations that do not depend on it
+                continue
             kept = all(equal(np.asarray(o.attrs[k_], dtype=object), np.asarray(v_, dtype=object), deep=False) for k_, v_ in (('tau', tau), ('beta', beta), ('K_tensor', K), ('burgers', b), ('transform', T), ('x', x), ('disregistry', stored)))
             ctx.ob('PN-TERMS', loc + name, '%s differences: evaluating the term leaves the object\'s settings (applied stress, coefficients, stored profile) as they were' % ('central' if cd else 'forward'), bool(kept),
                    node=ctx.fn(PN, 'SDVPN.' + name), key='settings kept %s %s' % (name, cd))
@@ -475,6 +500,19 @@ def pn_terms(ctx):
     for k in syms:
         attrs[k + '_energy'] = (lambda k: (lambda *a, **kw: (calls.append((k, a, kw)) or syms[k])))(k)
     cls = ctx.fn(PN, 'SDVPN')
+    # concrete settings in which an implementation might be tempted to skip a term that does not vanish (a first non-local coefficient of zero says nothing about the second)
+    ones = np.empty((3, 3), dtype=object)
+    ones[...] = sp.Integer(1)
+    for stag, extra in (('non-zero applied stress and surface coefficients, non-local coefficients (0, a2): no term vanishes identically', {'tau': ones.copy(), 'beta': ones.copy(), 'alpha': [sp.Integer(0), sp.Symbol('a2')]}),):
+        calls.clear()
+        a2_ = dict(attrs)
+        a2_.update(extra)
+        try:
+            r = _ret(SymEval(aliases).run_fn(tfn, [SymObj(cls, a2_, 'self'), 'X', 'D'], {}), 'total_energy')
+            ok = is_zero(r - sum(syms.values()))
+        except AnalysisError:
+            r, ok = None, False
+        ctx.ob('PN-TOTAL', PN + '::SDVPN.total_energy', '%s: the total is still the sum of all six documented terms' % stag, bool(ok), 'total = %s' % (r,), node=tfn, key='total settings ' + stag[:40])
     for tag, args, wantargs in (('explicit profile', ['X', 'D'], ('X', 'D')), ('stored profile', [], ('XSTORED', 'DSTORED'))):
         calls.clear()
         r = _ret(SymEval(aliases).run_fn(tfn, [SymObj(cls, dict(attrs), 'self')] + args, {}), 'total_energy')
@@ -482,6 +520,8 @@ def pn_terms(ctx):
                                                                                                     (not c[1] and (c[2].get('x'), c[2].get('disregistry')) == wantargs) for c in calls)
         ctx.ob('PN-TOTAL', PN + '::SDVPN.total_energy', '%s: the total is the plain sum of the misfit, elastic, long-range, stress, non-local and surface terms, each evaluated for the same x and disregistry' % tag, bool(ok), str(calls)[:300], node=tfn,
                key='total ' + tag)
+    if deferred:
+        raise AnalysisError(' || '.join(deferred))
 
 
 def pn_solve(ctx):
